@@ -114,6 +114,15 @@ CLAIMED = {
             "Memory safety proper (a read after free that leaves counts intact) is outside the abstract state; the "
             "tracking allocator sees frees, not reads. Cross-thread steps are sequential hand-overs (spawn + join), not races.",
             "TLA+ model checking + TLC-generated programs replayed on the implementation", "DESIGN.md §5 C20"),
+    "C12": ("model_checking",
+            "Trace_Value.tla states Span as ten magnitudes plus one sign with the documented setter rule and limits, and "
+            "SignedDuration as an exact BigInt nanosecond count; every observed setter sequence, negate/abs/mul/fieldwise, "
+            "and every SignedDuration operation (add, sub, mul, div, neg, unit views and constructors, std Duration and Span "
+            "conversions, f64 conversions) is recomputed exactly by TLC; overflow must be reported exactly when the exact "
+            "result is unrepresentable. BigInt.tla is model-checked against native arithmetic.",
+            "Floats: try_from_secs_f64 must be within 1ns and as_secs_f64 within 2 ulp of the exact value; the single float "
+            "2^63 may saturate (the existing suite pins that). mul_f64/div_f64 and the f32 variants are not covered.",
+            "TLA+ exact-arithmetic spec evaluated by TLC over implementation traces", "DESIGN.md §5 C12"),
 }
 
 PENDING_REASON = "check not built yet in this round (planned, see DESIGN.md §5); no claim is made"
